@@ -82,6 +82,20 @@ where
     returns `None`.
     */
     fn current(&self) -> Option<(&Self::Key, &Vec<u8>)>;
+
+    /**
+    Take the error that ended the iteration during a call to `next` or `prev`, if there was one.
+
+    `next` and `prev` cannot report an error through their return value: an iterator that fails
+    to read from storage becomes invalid, which looks the same as running off the end. Callers that
+    must tell the two apart (e.g. a compaction, which must not treat a truncated input as complete,
+    or a client that scans the database) call this method when the iterator has become invalid.
+
+    The default implementation is for iterators that cannot fail.
+    */
+    fn take_error(&mut self) -> Option<Self::Error> {
+        None
+    }
 }
 
 /**
@@ -181,6 +195,10 @@ impl RainDbIterator for CachingIterator {
 
     fn current(&self) -> Option<(&Self::Key, &Vec<u8>)> {
         self.cached_entry.as_ref().map(|entry| (&entry.0, &entry.1))
+    }
+
+    fn take_error(&mut self) -> Option<Self::Error> {
+        self.iterator.take_error()
     }
 }
 
@@ -586,5 +604,9 @@ impl RainDbIterator for DatabaseIterator {
                 ));
             }
         }
+    }
+
+    fn take_error(&mut self) -> Option<Self::Error> {
+        self.inner_iter.take_error()
     }
 }
